@@ -112,7 +112,8 @@ Inductive instr :=
 | IAddOrig (k : Z) (f : frame) (e : env) (c : Z) (d : Z) (did : Z)  (* addRelayItem(true) *)
 (* shared *)
 | ICb (c : Z) (x : cb)
-| IDec (k : Z)                                               (* decrementPending *)
+| IDec (k : Z)                                               (* decrementPending: r.pending.Dec() ... *)
+| ICheck (k : Z)                                             (* ... then r.conn.checkExchanges(), same goroutine *)
 | ISendErr (k : Z) (id : Z) (code : Z)                       (* conn.SendSystemError *)
 | IConnClose (k : Z)                                         (* conn.close after a protocol error of the host *)
 (* handleNonCallReq *)
@@ -156,7 +157,7 @@ Inductive label :=
 | LArrive (k : Z) (f : frame) (e : env)   (* the idle reader of k has read frame f *)
 | LStep (t : tid) (room : bool)           (* thread t performs its next action; room = sendCh has room *)
 | LFire (tm : Z)                          (* the Go runtime fires timer tm: OnTimer goroutine created *)
-| LGc (t : key)                           (* a tomb GC timer fires: relayItems.Delete(id) *)
+| LGc (t : key)                           (* a tomb GC timer fires: relayItems.deleteTomb(id) *)
 | LClose (k : Z)                          (* Connection.close: Active -> StartClose *)
 | LLost (k : Z)                           (* connection failure: -> Closed *)
 | LDrained (k : Z).                       (* checkExchanges with canClose: closing -> Closed *)
@@ -291,6 +292,18 @@ Definition items_delete (st : state) (t : key) : state * option (item * bool) :=
       (timer_release st1 (it_tm it), Some (it, negb (it_tomb it)))
   end.
 
+(* relayItems.deleteTomb: the scheduled collection of the tombstone left for t.  It deletes a
+   tombstone only: nothing there (deleted in the meantime) or a NON-tombstone (the tombstone was
+   deleted and the id re-used by a live call) is left alone. *)
+Definition items_delete_tomb (st : state) (t : key) : state :=
+  match lookup key_eqb t (items st) with
+  | None => st
+  | Some it =>
+      if it_tomb it
+      then timer_release (set_items st (remove key_eqb t (items st))) (it_tm it)
+      else st
+  end.
+
 (* relayItems.Entomb *)
 Definition items_entomb (cf : config) (st : state) (t : key) : state * option (item * bool) :=
   if cf_maxtombs cf <? tomb_count st (key_conn t) (key_dir t) then items_delete st t
@@ -388,7 +401,15 @@ Definition exec (cf : config) (st : state) (i : instr) (room : bool) : state * l
   | ICb c x => (log_cb st c x, [])
   | IDec k =>
       let cn := get_conn st k in
-      (put_conn st k {| c_state := c_state cn; c_pending := wrapU 32 (c_pending cn - 1); c_nextid := c_nextid cn |}, [])
+      (put_conn st k {| c_state := c_state cn; c_pending := wrapU 32 (c_pending cn - 1); c_nextid := c_nextid cn |},
+       [ICheck k])
+  | ICheck k =>
+      (* Connection.checkExchanges as far as the relay is concerned: a closing connection whose
+         relayer can close (pending = 0) completes its close *)
+      let cn := get_conn st k in
+      if ((c_state cn =? c_connectionStartClose) || (c_state cn =? c_connectionInboundClosed)) && (c_pending cn =? 0)
+      then (put_conn st k {| c_state := c_connectionClosed; c_pending := c_pending cn; c_nextid := c_nextid cn |}, [])
+      else (st, [])
   | ISendErr k id code =>
       if (c_state (get_conn st k) =? c_connectionClosed) || negb room then (st, [])
       else (set_sent st ((k, {| f_mt := c_messageTypeError; f_id := id; f_flags := 0; f_code := code; f_wf := true |}) :: sent st), [])
@@ -516,7 +537,7 @@ Definition step (cf : config) (st : state) (l : label) : option state :=
       end
   | LGc t =>
       if mem_key t (gcs st)
-      then Some (fst (items_delete (set_gcs st (remove_one t (gcs st))) t))
+      then Some (items_delete_tomb (set_gcs st (remove_one t (gcs st))) t)
       else None
   | LClose k =>
       let cn := get_conn st k in
